@@ -3,7 +3,9 @@
 package main
 
 // C16: (i) commits and preloads with many workers vs one worker on storages produced by World
-// histories; (ii) independent histories on concurrent goroutines vs the same histories run alone.
+// histories; (ii) independent histories on concurrent goroutines vs the same histories run alone;
+// (iii) the same comparison with every client on its own atree.Ledger behind the production adapter
+// atree.NewLedgerBaseStorage (sched_concledger.go).
 // The slab size is set ONCE at the start (default 1024) and never during a concurrent phase.
 // Every goroutine owns its World, ledger, generators and Report shard; results are written to
 // distinct slice slots and read after wg.Wait().
@@ -408,10 +410,13 @@ func cmdConcurrent(a Args) {
 		"and (50%) with the same ledger call of the final commit failing under 1 and W workers: ledger digest after every commit, final registers, read-cache key set, write-set key set and error must be equal; BatchPreload of the shuffled ledger ids (+ absent ids to reach the parallel path, + duplicates) " +
 		"into fresh storages with 1 vs W workers, with Gosched jitter in the ledger and (50%) a failing ledger read: error, cache key set equal, every cached slab re-encodes to its register. " +
 		"(ii) ceil(n/10) groups of 4 or 16 independent histories (40..-steps ops, roots empty or prefilled as in the other schedule checks, commits with 1-4 workers, relaxed commits, DropCache+reopen, VerifyArray/VerifyMap/health every 8 ops), each on its own storage/ledger: run alone sequentially, then on concurrent goroutines under GOMAXPROCS 1, 4, 16 with Gosched jitter in the ledger and between ops: " +
-		"per-step library fingerprints and final ledger digests must be equal. Built with -race by the driver. non-trivial: (i) >=2 commits and >=4 registers; (ii) at least half of the group's histories end with >=3 registers. -mode workers|goroutines selects one part"
+		"per-step library fingerprints and final ledger digests must be equal. " +
+		"(iii) ceil(n/10) groups of 4 or 16 independent clients, each with its own in-memory atree.Ledger (absent register = empty value; slab indexes allocated from a client-specific offset, so that the clients' register keys are pairwise disjoint) behind the production adapter atree.NewLedgerBaseStorage, its own storage and World history (16..-steps/3 ops, ~80% of the clients with roots prefilled with ~5-180 elements each; VerifyArray/VerifyMap/health every 16 ops; commit with 1-4 workers / relaxed commit after 10/20/35% of the ops, followed by DropCache+reopen from the ledger through a new adapter (30%), the same with BatchPreload of every register with 1-8 workers (25%), DropCache under the live handles (20%) or nothing; final commit, reopen, VerifyArray/VerifyMap/health): run alone, then on concurrent goroutines under GOMAXPROCS 1, 4, 16 with Gosched jitter between ops and inside the ledger BEFORE it reads the key bytes: " +
+		"per-step library fingerprints, register digest after every commit, final registers (key -> bytes) and the set of register keys the ledger is asked for must equal those of the run alone; every key must name a slab index this ledger allocated for that owner; a client stops at the first step known to be wrong. " +
+		"Built with -race by the driver. non-trivial: (i) >=2 commits and >=4 registers; (ii) at least half of the group's histories end with >=3 registers; (iii) at least half of the group's clients made >=2 commits, >=1 reload with ledger reads and end with >=3 registers. -mode workers|goroutines|ledger selects one part"
 	atree.VerifSetThreshold(1024)
 	rng := NewRng(a.Seed)
-	if a.Mode != "goroutines" {
+	if a.Mode != "goroutines" && a.Mode != "ledger" {
 		for h := 0; h < a.N; h++ {
 			hr := rng.Fork(uint64(h))
 			tag := fmt.Sprintf("cw%d", h)
@@ -422,7 +427,7 @@ func cmdConcurrent(a Args) {
 		}
 	}
 	grng := NewRng(a.Seed ^ 0x6060)
-	if a.Mode != "workers" {
+	if a.Mode != "workers" && a.Mode != "ledger" {
 		G := (a.N + 9) / 10
 		for g := 0; g < G; g++ {
 			gr := grng.Fork(uint64(g))
@@ -431,6 +436,18 @@ func cmdConcurrent(a Args) {
 				continue
 			}
 			goroutineGroup(rep, g, tag, gr, a.Steps)
+		}
+	}
+	lrng := NewRng(a.Seed ^ 0x1ED6E8)
+	if a.Mode != "workers" && a.Mode != "goroutines" {
+		G := (a.N + 9) / 10
+		for g := 0; g < G; g++ {
+			gr := lrng.Fork(uint64(g))
+			tag := fmt.Sprintf("cl%d", g)
+			if !want(tag) {
+				continue
+			}
+			ledgerGroup(rep, g, tag, gr, a.Steps)
 		}
 	}
 	rep.Write(a.Out + "/report.json")
